@@ -152,6 +152,7 @@ func genSlices(t *rapid.T) []int {
 // ---- the server under test and the liveness probe --------------------------------
 
 func newServer() *inproc.Server {
+	memBackpressure()
 	return inproc.New(inproc.Config{RtmpGopNum: 1, FlvGopNum: 1, TsGopNum: 1, Hls: true, HlsFragmentMs: 500})
 }
 
@@ -445,11 +446,18 @@ func lbl(format string, a ...interface{}) string { return fmt.Sprintf(format, a.
 // client session that failed before "play" succeeded (with whatever message buffer a misaligned chunk stream made it
 // allocate, up to 16 MiB) until the pull timeout expires, so fast cases pile such sessions up.  Waiting for them to
 // expire is harness pacing, not a verdict.
+func init() {
+	// the test binary runs under an address-space limit (check.json mem_limit_mb) so that a peer-controlled
+	// multi-gigabyte allocation is a deterministic fatal error; keep the collector well below that limit, otherwise
+	// garbage piling up between two collections on a loaded machine looks like such an allocation
+	debug.SetMemoryLimit(1200 << 20)
+}
+
 func memBackpressure() {
 	var m runtime.MemStats
 	for i := 0; i < 40; i++ {
 		runtime.ReadMemStats(&m)
-		if m.HeapAlloc < 900<<20 {
+		if m.HeapAlloc < 500<<20 {
 			return
 		}
 		debug.FreeOSMemory()
